@@ -406,8 +406,28 @@ def _d4(chk, fb):
     key = render(f.obj(fills[0])) if fills else (render(kids(bfills[0])[0]) if bfills else "")
     val = render(f.args(fills[0])[0]) if fills else (render(kids(bfills[0])[1]) if bfills else "")
     fills = allf
-    if fills and key == "index_[variables_[%s]]" % val:
+    # the range-for spelling: key = the element variable of a loop over variables_, value = a counter started at 0 before the
+    # loop and incremented once per pass, after the store
+    rf_ok = rf_seen = False
+    if fills:
+        n0 = fills[0]
+        lp_ = f.enclosing(n0, ("CXXForRangeStmt",))
+        rfv = e1.rangefor_vars(f)
+        if lp_ is not None:
+            rf_seen = True
+            kn = [x for x in walk(n0) if x["k"] == "DeclRefExpr" and x["decl"]["id"] in rfv and render(rfv[x["decl"]["id"]]).replace("this.", "") == "variables_"]
+            vn = strip(f.args(n0)[0]) if is_call(n0) else strip(kids(n0)[1])
+            if kn and vn["k"] == "DeclRefExpr":
+                cid = vn["decl"]["id"]
+                zero = any(dn_["k"] == "DeclStmt" and not f.contains(lp_, dn_) and any(d_["id"] == cid and d_.get("init") is not None and strip(d_["init"])["k"] == "IntegerLiteral" and int(strip(d_["init"])["val"]) == 0 for d_ in dn_["decls"]) for dn_ in f.all_nodes())
+                incs_ = [x for x in walk(lp_) if x["k"] == "UnaryOperator" and x.get("op") == "++" and strip(kids(x)[0])["k"] == "DeclRefExpr" and strip(kids(x)[0])["decl"]["id"] == cid]
+                other_w = [x for x in f.all_nodes() if x["k"] in ("BinaryOperator", "CompoundAssignOperator") and x.get("op", "").endswith("=") and x["op"] not in ("==", "!=", "<=", ">=") and strip(kids(x)[0])["k"] == "DeclRefExpr" and strip(kids(x)[0])["decl"]["id"] == cid]
+                if zero and len(incs_) == 1 and not other_w and (incs_[0].get("l") or 0) >= (n0.get("l") or 0) and f.enclosing(incs_[0], ("IfStmt",)) is None:
+                    rf_ok = True
+    if fills and (key == "index_[variables_[%s]]" % val or rf_ok):
         chk.proved("D4b", f.key, "table-maps-name-to-position", f.loc(fills[0]), "%s = %s" % (key, val))
+    elif fills and rf_seen:
+        chk.unknown("D4b", f.key, "table-maps-name-to-position", f.loc(fills[0]), "'%s = %s' inside a range-for: the position counter is not in a recognised form" % (key, val))
     elif fills:
         chk.refuted("D4b", f.key, "table-maps-name-to-position", f.loc(fills[0]), "table entry '%s = %s' does not map a selected name to its position" % (key, val))
     sub_ = local_inits(f)
